@@ -7,8 +7,10 @@ OWN_STREAM = True
 TABLES = ['Build']
 LEAN_TARGETS = ['BertE.Props.C03']
 ASSUMPTIONS = [
-    'the selection of the queue evaluation has green heads (proved of QueueCollection by the C05 theorems; '
-    'the admin force merge is the stated exception)',
+    'C03_queue: the selection of the queue evaluation has green heads; C03_queue_closed discharges this for the '
+    'selection computed by the model of QueueCollection._process on the state (Model/Select.lean) under '
+    'Select.Validated = pull-request ids are positive and validate() passed; the admin force merge is the stated '
+    'exception',
     'build statuses are keyed by commit on the git host (mock host: Repository.revisions)',
 ]
 TRUSTED = [
@@ -66,6 +68,8 @@ def correspondence(ctx):
     # end-to-end phase: direct merges (queue skipped) decided by the composed model from the host's build table
     from . import evalsys
     evalsys.phase(ctx, res, PID)
+    from . import selectsys       # additional phase: the selection is computed by the model, not read from the run
+    res.merge(selectsys.phase(ctx, PID))
     return res
 
 
@@ -73,4 +77,8 @@ def replay(ctx, payload):
     from . import evalsys
     if evalsys.is_mine(payload):
         return evalsys.replay(ctx, payload)
+    inp = payload['failure']['input'] if 'failure' in payload else payload.get('input', {})
+    if isinstance(inp, dict) and inp.get('phase') == 'selectsys':
+        from . import selectsys
+        return selectsys.replay(ctx, PID, inp)
     return syscheck.replay_history(ctx, PID, payload)
